@@ -59,12 +59,15 @@ import numpy as np
 
 
 def make_slice_cache(cycle_vect):
-    """Create a list of slice objects from a cycle_vect."""
-    starts = np.where(np.diff(cycle_vect, axis=0) == 1)[0] + 1
-    stops = starts
+    """Create a list of slice objects from a cycle_vect.
 
-    starts = np.r_[0, starts]
-    stops = np.r_[stops, len(cycle_vect)]
+    One slice per run of samples sharing a cycle label, in temporal order.
+    Samples which are not in any cycle (-1) do not belong to any slice.
+    """
+    cv = np.reshape(cycle_vect, (len(cycle_vect), -1))[:, 0]
+    in_cycle = cv > -1
+    starts = np.where(in_cycle & (cv != np.r_[-1, cv[:-1]]))[0]
+    stops = np.where(in_cycle & (cv != np.r_[cv[1:], -1]))[0] + 1
 
     slice_cache = [slice(starts[ii], stops[ii]) for ii in range(len(starts))]
 
